@@ -26,8 +26,8 @@ CHECKS = {
                 text="OrderingList._order_entity, reorder (loop invariant: prefix ordered), append, insert, pop, remove, __delitem__ are proved: the list-model postcondition on the sequence and the representation invariant position(self[i]) == ordering_func(i) restored, for lists of any length. Bounded complement: operation sequences on bound and un-instrumented OrderingLists and association proxies against list/set/dict models.",
                 note="ghost position field; entities distinct; __setitem__ / inherited list methods / proxies bounded only (several known findings)"),
     "C52": dict(level="proof", technique=PROOF_TECH, design="DESIGN.md §5 C52",
-                text="ScopedRegistry.__call__/has/set/clear are proved against the map view: the current scope's entry is returned or created exactly once, every other scope's entry and the key order are untouched.",
-                note="scopefunc pure within a call; thread interleavings rely on dict atomicity in CPython (assumed, stated); ThreadLocalRegistry and scoped_session wrappers not under proof"),
+                text="ScopedRegistry.__init__/__call__/has/set/clear are proved against the map view (the current scope's entry is returned or created exactly once, also when another thread wins the race while the factory runs; every other scope's entry and the key order untouched); ThreadLocalRegistry.__init__/__call__/has/set/clear against the current thread's slot (may-be-absent attribute); scoped_session.__init__ (a scopefunc gives a ScopedRegistry, none gives thread-local storage) and remove() for both registry kinds (the current Session closed and discarded, no other Session touched, none created). Bounded complement: real threads - sequential short-lived threads with recycled idents, every interleaving of call,call,remove,call over 2 threads and a prefix over 3, thread and scopefunc scopes.",
+                note="scopefunc pure within a call; interference only at the factory call (dict operations atomic in CPython: assumed); threading.local semantics trusted; Session.close abstract (ghost flag); scoped_session.__call__(**kw) and proxy methods bounded only"),
     "C54": dict(level="proof", technique=PROOF_TECH, design="DESIGN.md §5 C54",
                 text="every OrderedSet method and operator, unique_list and IdentitySet (IdentitySet operand) is proved from the pure-Python source against 'set semantics with first-insertion order' (views via the spec functions addall/filt), representation invariants and frames included; the two known defects are reported as KNOWN-FINDING with every input outside their class proved. Bounded complement: pure and compiled builds against reference models.",
                 note="argument kinds are a case split (list with duplicates / set / IdentitySet); inductive lemmas filt_cong, addall_cat, filt_snoc assumed (Lean status in lemmas/); immutabledict/LRUCache/merge_lists_w_ordering are bounded only; the .so cannot be rebuilt here"),
